@@ -403,6 +403,18 @@ def simp1(t):
             return ('call', S('open'), (x,) + tuple(t[2]), tuple(t[3]) if len(t) > 3 else ())
         if m == 'write_text' and len(t[2]) == 1:
             return ('call', ('attr', ('call', S('open'), (x, C('w')), ()), 'write'), tuple(t[2]), ())
+    if k == 'call' and t[1][0] == 'ite' and not (len(t) > 3 and t[3]):
+        # (g if c else h)(args): the call is made on whichever function the condition selects
+        return ('ite', t[1][1], ('call', t[1][2], t[2], ()), ('call', t[1][3], t[2], ()))
+    if k == 'call' and len(t[2]) == 2 and not (len(t) > 3 and t[3]):
+        f_ = t[1]
+        opn = f_[2] if (f_[0] == 'attr' and f_[1] == ('sym', 'operator')) else None
+        cmpn = {'ge': 'GtE', 'le': 'LtE', 'gt': 'Gt', 'lt': 'Lt', 'eq': 'Eq', 'ne': 'NotEq'}.get(opn)
+        if cmpn:
+            return ('cmp', cmpn, t[2][0], t[2][1])            # operator.ge(a, b) is a >= b
+        binn = {'add': 'Add', 'sub': 'Sub', 'mul': 'Mult'}.get(opn)
+        if binn:
+            return ('bin', binn, t[2][0], t[2][1])
     if k == 'call':
         f, args = t[1], t[2]
         fname = f[1] if f[0] == 'sym' else (f[2] if (f[0] == 'attr' and f[1] == ('sym', 'itertools')) else None)
